@@ -44,6 +44,7 @@ type ipState struct {
 	failed ssa.Instruction // call site (in ctx.Fn) whose callee returned through a provably failing return
 	okSite ssa.Instruction // call site (in ctx.Fn) whose callee returned a constant nil error
 	st     string          // client path state (e.g. the lockset)
+	fx     facts           // nil-ness of error values known on this path
 }
 
 type ipKey struct {
@@ -52,6 +53,7 @@ type ipKey struct {
 	failed ssa.Instruction
 	okSite ssa.Instruction
 	st     string
+	fx     facts
 }
 
 // IPWalk explores the interprocedural graph obtained by cloning module callees by call string.
@@ -70,6 +72,8 @@ type IPWalk struct {
 	EdgeTransfer func(ctx *Ctx, b *ssa.BasicBlock, k int, st string) string
 	// States records every path state in which a node was reached (when Transfer is set).
 	States map[Node]map[string]bool
+	// RootSucc: a Return of the entry function was reached on a path on which its error result is not known to be non-nil
+	RootSucc map[Node]bool
 
 	seen     map[ipKey]bool
 	parent   map[ipKey]ipKey
@@ -187,12 +191,13 @@ func (w *IPWalk) Run(entry *Ctx, starts []Node) {
 	w.Reached = map[Node]bool{}
 	w.firstKey = map[Node]ipKey{}
 	w.States = map[Node]map[string]bool{}
+	w.RootSucc = map[Node]bool{}
 	var work []ipState
 	push := func(from ipKey, s ipState) {
 		if s.i >= len(s.b.Instrs) {
 			return
 		}
-		k := ipKey{s.ctx, s.b.Instrs[s.i], s.failed, s.okSite, s.st}
+		k := ipKey{s.ctx, s.b.Instrs[s.i], s.failed, s.okSite, s.st, s.fx}
 		if w.seen[k] {
 			return
 		}
@@ -216,7 +221,7 @@ func (w *IPWalk) Run(entry *Ctx, starts []Node) {
 						bb := rd.Block()
 						for i, x := range bb.Instrs {
 							if x == ssa.Instruction(rd) {
-								push(ipKey{n.Ctx, n.In, nil, nil, ""}, ipState{ctx: n.Ctx, b: bb, i: i + 1, st: w.Init})
+								push(ipKey{n.Ctx, n.In, nil, nil, "", ""}, ipState{ctx: n.Ctx, b: bb, i: i + 1, st: w.Init})
 							}
 						}
 					}
@@ -227,7 +232,7 @@ func (w *IPWalk) Run(entry *Ctx, starts []Node) {
 		b := n.In.Block()
 		for i, in := range b.Instrs {
 			if in == n.In {
-				from := ipKey{n.Ctx, n.In, nil, nil, ""}
+				from := ipKey{n.Ctx, n.In, nil, nil, "", ""}
 				w.afterInstr(from, ipState{ctx: n.Ctx, b: b, i: i}, push, true)
 			}
 		}
@@ -236,7 +241,7 @@ func (w *IPWalk) Run(entry *Ctx, starts []Node) {
 		s := work[len(work)-1]
 		work = work[:len(work)-1]
 		in := s.b.Instrs[s.i]
-		key := ipKey{s.ctx, in, s.failed, s.okSite, s.st}
+		key := ipKey{s.ctx, in, s.failed, s.okSite, s.st, s.fx}
 		n := Node{s.ctx, in}
 		if !w.Reached[n] {
 			w.Reached[n] = true
@@ -249,6 +254,21 @@ func (w *IPWalk) Run(entry *Ctx, starts []Node) {
 				w.States[n] = m
 			}
 			m[s.st] = true
+		}
+		if ret, ok := in.(*ssa.Return); ok && s.ctx.Parent == nil {
+			fail := false
+			if idx := errResultIndex(s.ctx.Fn); idx >= 0 && idx < len(ret.Results) {
+				v := retOperand(ret, idx)
+				if kn, isNil := s.fx.known(v); kn && !isNil {
+					fail = true
+				}
+				if s.failed != nil && valueOfCall(v, s.failed) {
+					fail = true
+				}
+			}
+			if !fail {
+				w.RootSucc[n] = true
+			}
 		}
 		if w.Visit != nil && w.Visit(n) {
 			continue
@@ -304,20 +324,23 @@ func (w *IPWalk) afterInstr(key ipKey, s ipState, push func(ipKey, ipState), ski
 					}
 				}
 			}
+			if !s.fx.feasible(s.b, k) {
+				continue
+			}
 			st := s.st
 			if w.EdgeTransfer != nil {
 				st = w.EdgeTransfer(s.ctx, s.b, k, st)
 			}
-			push(key, ipState{ctx: s.ctx, b: succ, i: 0, failed: s.failed, okSite: s.okSite, st: st})
+			push(key, ipState{ctx: s.ctx, b: succ, i: 0, failed: s.failed, okSite: s.okSite, st: st, fx: s.fx.afterEdge(s.b, k)})
 		}
 		return
 	case *ssa.Jump:
-		push(key, ipState{ctx: s.ctx, b: s.b.Succs[0], i: 0, failed: s.failed, okSite: s.okSite, st: s.st})
+		push(key, ipState{ctx: s.ctx, b: s.b.Succs[0], i: 0, failed: s.failed, okSite: s.okSite, st: s.st, fx: s.fx.afterEdge(s.b, 0)})
 		return
 	case *ssa.Panic:
 		return
 	}
-	push(key, ipState{ctx: s.ctx, b: s.b, i: s.i + 1, failed: s.failed, okSite: s.okSite, st: s.st})
+	push(key, ipState{ctx: s.ctx, b: s.b, i: s.i + 1, failed: s.failed, okSite: s.okSite, st: s.st, fx: s.fx.afterInstr(s.b.Instrs[s.i])})
 }
 
 // valueOfCall reports whether v is (an extract of) the result of call instruction site.
@@ -341,7 +364,7 @@ func (w *IPWalk) enter(key ipKey, s ipState, site ssa.Instruction, cc *ssa.CallC
 		}
 	}
 	k := w.child(s.ctx, site, f, mc, mcCtx)
-	push(key, ipState{ctx: k, b: f.Blocks[0], i: 0, st: s.st})
+	push(key, ipState{ctx: k, b: f.Blocks[0], i: 0, st: s.st, fx: s.fx})
 	return true
 }
 
@@ -382,7 +405,7 @@ func (w *IPWalk) enterDeferred(key ipKey, s ipState, defers []*ssa.Defer, idx in
 		}
 		k := w.childKeyed(s.ctx, deferKey{s.b.Instrs[s.i], d}, d, f, mc, mcCtx)
 		deferFrames[k] = &deferFrame{defers: defers, idx: idx, at: s}
-		push(key, ipState{ctx: k, b: f.Blocks[0], i: 0, st: s.st})
+		push(key, ipState{ctx: k, b: f.Blocks[0], i: 0, st: s.st, fx: s.fx})
 		return true, s.st
 	}
 	return false, s.st
@@ -422,7 +445,17 @@ func (w *IPWalk) ret(key ipKey, s ipState, r *ssa.Return, push func(ipKey, ipSta
 			failedRet = true
 		}
 	}
+	if idx := errResultIndex(ctx.Fn); !failedRet && idx >= 0 && idx < len(r.Results) {
+		if kn, isNil := s.fx.known(retOperand(r, idx)); kn && !isNil {
+			failedRet = true
+		}
+	}
 	okRet := !failedRet && isNilReturn(ctx.Fn, r)
+	if idx := errResultIndex(ctx.Fn); !failedRet && !okRet && idx >= 0 && idx < len(r.Results) {
+		if kn, isNil := s.fx.known(retOperand(r, idx)); kn && isNil {
+			okRet = true
+		}
+	}
 	if !failedRet && !okRet && s.okSite != nil {
 		if idx := errResultIndex(ctx.Fn); idx >= 0 && idx < len(r.Results) && valueOfCall(retOperand(r, idx), s.okSite) {
 			okRet = true
@@ -433,11 +466,13 @@ func (w *IPWalk) ret(key ipKey, s ipState, r *ssa.Return, push func(ipKey, ipSta
 		b := site.Block()
 		for i, in := range b.Instrs {
 			if in == ssa.Instruction(site) {
-				ns := ipState{ctx: ctx.Parent, b: b, i: i + 1, st: s.st}
+				ns := ipState{ctx: ctx.Parent, b: b, i: i + 1, st: s.st, fx: s.fx}
 				if failedRet {
 					ns.failed = site
+					ns.fx = ns.fx.withErrResult(site, false)
 				} else if okRet {
 					ns.okSite = site
+					ns.fx = ns.fx.withErrResult(site, true)
 				}
 				push(key, ns)
 			}
@@ -450,7 +485,7 @@ func (w *IPWalk) ret(key ipKey, s ipState, r *ssa.Return, push func(ipKey, ipSta
 		at := fr.at
 		at.st = s.st
 		if entered, st := w.enterDeferred(key, at, fr.defers, fr.idx+1, push); !entered {
-			push(key, ipState{ctx: at.ctx, b: at.b, i: at.i + 1, failed: at.failed, okSite: at.okSite, st: st})
+			push(key, ipState{ctx: at.ctx, b: at.b, i: at.i + 1, failed: at.failed, okSite: at.okSite, st: st, fx: s.fx})
 		}
 	}
 }
@@ -612,4 +647,9 @@ func fieldShort(v ssa.Value) string {
 		return fn[i+1:]
 	}
 	return fn
+}
+
+// rootSuccess reports whether n is a return of the entry function that can report success on some explored path.
+func (w *IPWalk) rootSuccess(n Node) bool {
+	return isRootSuccessReturn(n) && w.RootSucc[n]
 }
